@@ -101,6 +101,8 @@ def dist_grid(draw, prof, role):
     if role in ("arrival", "cct") and vals[0] == 0.0:
         vals[0] = 0.5
     if kind == "seq":
+        if role == "arrival" and prof.numeric != "decgrid" and "zero_service" in prof.allowed and _flag(draw, 0.12):
+            vals[0] = 0.0          # first arrival exactly at t = 0 (the other values keep the stream's mean positive)
         return ["seq", vals]
     if kind == "pmf":
         return ["pmf", vals, _dyadic_probs(draw, n)]
@@ -410,8 +412,10 @@ def netspec(draw, prof):
     spec["plan"] = plan(draw, prof)
     spec["event_budget"] = prof.budget
     if prof.excluded:
+        import os
         from .findings import apply_exclusions
-        spec = apply_exclusions(spec, [x for x in prof.excluded if x != "slot_zero_first_arrival"])
+        skip = set(os.environ.get("VERIF_DROP_EXCLUSIONS", "").split(","))     # probing aid: which exclusions does a property need?
+        spec = apply_exclusions(spec, [x for x in prof.excluded if x != "slot_zero_first_arrival" and x not in skip and "all" not in skip])
     return spec
 
 
